@@ -321,9 +321,12 @@ func verifDefaultSource() func() {
 		}
 	}
 	verifNativeRand = &verifStream{buf: buf}
-	old := {{READER}}
+	// both the package's variable and crypto/rand.Reader itself become the recording stream, so code
+	// that tests "is it still the OS source?" or calls crypto/rand.Read directly sees the same bytes
+	old, oldOS := {{READER}}, rand.Reader
+	rand.Reader = verifNativeRand
 	{{READER}} = verifNativeRand
-	return func() { {{READER}} = old }
+	return func() { {{READER}} = old; rand.Reader = oldOS }
 }
 
 // ---------------------------------------------------------------------------
@@ -1008,6 +1011,22 @@ func H_C13_entropy(lg Language, L int, W int) {
 	got4, _ := NewMnemonicByEntropy(ent4, lg)
 	verifAssert(got == specSentence(lg, keep), "earlier-result-unaltered")
 	verifAssert(got4 == specSentence(lg, ent4), "later-result")
+	// native reproduction aid (0 rounds under the engine): many more calls, then the early results again
+	if n := verifStressRounds(); n > 0 {
+		first := got
+		e := make([]byte, L)
+		for r := 0; r < n; r++ {
+			for i := range e {
+				e[i] = byte(r*31 + i*7)
+			}
+			s, _ := NewMnemonicByEntropy(e, lg)
+			if r%97 == 0 {
+				verifAssert(s == specSentence(lg, e), "result-in-a-long-history")
+			}
+		}
+		verifAssert(first == specSentence(lg, keep), "early-result-unaltered-after-a-long-history")
+		verifAssert(got4 == specSentence(lg, ent4), "later-result-unaltered-after-a-long-history")
+	}
 	verifReach("end")
 }
 
